@@ -198,35 +198,55 @@ pub fn grid_for(n: usize) -> usize {
 /// the program of `Butterfly{n}` in direction `d`: (grid N, instructions as (op, a, b), output registers re/im interleaved)
 /// op codes: 0 = input a; 1 = constant cos(2 pi a / N); 2 = add; 3 = sub; 4 = mul; 5 = neg
 pub fn extract(n: usize, d: FftDirection) -> Result<(usize, Vec<(u8, u32, u32)>, Vec<u32>), String> {
-    extract_with(n, 0, &|| make::<Sym>(n, d).into())
+    extract_with(n, 0, 1, 0, &|| make::<Sym>(n, d).into())
 }
 
-/// entry: 0 = process_with_scratch, 1 = process_outofplace_with_scratch, 2 = process_immutable_with_scratch
-/// (scratch of exactly the advertised length, scratch and output pre-filled with fresh symbolic zeros)
-pub fn extract_with(n: usize, entry: usize, build: &dyn Fn() -> std::sync::Arc<dyn Fft<Sym>>) -> Result<(usize, Vec<(u8, u32, u32)>, Vec<u32>), String> {
+/// entry: 0 = process_with_scratch, 1 = process_outofplace_with_scratch, 2 = process_immutable_with_scratch.
+/// The call processes `chunks` consecutive chunks; the program's inputs 0..2n are the re/im parts of chunk `which`.
+/// EVERYTHING ELSE the call can read — the other chunks, the scratch (exactly the advertised length) and the initial
+/// contents of the output buffer — is filled with further symbolic inputs ("garbage", numbered from 2n on): if an
+/// output of chunk `which` depended on any of them, its linear form would mention an input >= 2n and the checker rejects.
+pub fn extract_with(n: usize, entry: usize, chunks: usize, which: usize, build: &dyn Fn() -> std::sync::Arc<dyn Fft<Sym>>) -> Result<(usize, Vec<(u8, u32, u32)>, Vec<u32>), String> {
     ARENA.with(|a| a.borrow_mut().clear());
     BAD.with(|c| c.set(0));
     let fft = build();
-    let mut buf: Vec<Complex<Sym>> = (0..n).map(|k| Complex::new(push(Node::Inp(2 * k as u32)), push(Node::Inp(2 * k as u32 + 1)))).collect();
-    let zeros = |m: usize| -> Vec<Complex<Sym>> { (0..m).map(|_| Complex::new(Sym::zero(), Sym::zero())).collect() };
+    let mut next_garbage = 2 * n as u32;
+    let mut garbage = |m: usize| -> Vec<Complex<Sym>> {
+        (0..m)
+            .map(|_| {
+                let c = Complex::new(push(Node::Inp(next_garbage)), push(Node::Inp(next_garbage + 1)));
+                next_garbage += 2;
+                c
+            })
+            .collect()
+    };
+    let mut buf: Vec<Complex<Sym>> = vec![];
+    for c in 0..chunks {
+        if c == which {
+            buf.extend((0..n).map(|k| Complex::new(push(Node::Inp(2 * k as u32)), push(Node::Inp(2 * k as u32 + 1)))));
+        } else {
+            buf.extend(garbage(n));
+        }
+    }
     match entry {
         0 => {
-            let mut s = zeros(fft.get_inplace_scratch_len());
+            let mut s = garbage(fft.get_inplace_scratch_len());
             fft.process_with_scratch(&mut buf, &mut s);
         }
         1 => {
-            let mut s = zeros(fft.get_outofplace_scratch_len());
-            let mut out = zeros(n);
+            let mut s = garbage(fft.get_outofplace_scratch_len());
+            let mut out = garbage(n * chunks);
             fft.process_outofplace_with_scratch(&mut buf, &mut out, &mut s);
             buf = out;
         }
         _ => {
-            let mut s = zeros(fft.get_immutable_scratch_len());
-            let mut out = zeros(n);
+            let mut s = garbage(fft.get_immutable_scratch_len());
+            let mut out = garbage(n * chunks);
             fft.process_immutable_with_scratch(&buf, &mut out, &mut s);
             buf = out;
         }
     }
+    let buf: Vec<Complex<Sym>> = buf[which * n..(which + 1) * n].to_vec();
     if BAD.with(|c| c.get()) != 0 {
         return Err(format!("length {}: {} non-ring operations on the element type (comparison / division / abs …)", n, BAD.with(|c| c.get())));
     }
@@ -349,18 +369,26 @@ pub fn genplanned(hi: usize) {
         }
         for (d, tag) in [(FftDirection::Forward, "F"), (FftDirection::Inverse, "I")] {
             for entry in 0..3usize {
-                let r = extract_with(n, entry, &|| rustfft::FftPlannerScalar::<Sym>::new().plan_fft(n, d));
-                match r {
-                    Ok((grid, code, outs)) => {
-                        let body: Vec<String> = code.iter().map(|(o, a, b)| format!("({},{},{})", o, a, b)).collect();
-                        let outs_s: Vec<String> = outs.iter().map(|o| o.to_string()).collect();
-                        let name = format!("plan{}{}{}", n, tag, ["inplace", "oop", "immut"][entry]);
-                        writeln!(out, "def {} : RawProg := {{ n := {}, grid := {}, inverse := {},\n  code := [{}],\n  outs := [{}] }}\n", name, n, grid, if tag == "I" { "true" } else { "false" }, body.join(","), outs_s.join(",")).unwrap();
-                        names.push(name);
-                    }
-                    Err(e) => {
-                        eprintln!("T8 failed closed: {}", e);
-                        std::process::exit(3);
+                // one chunk; and, for the shorter lengths in the forward direction, two chunks (each checked on its own)
+                let mut shapes = vec![(1usize, 0usize)];
+                if n <= 32 && tag == "F" {
+                    shapes.push((2, 0));
+                    shapes.push((2, 1));
+                }
+                for (chunks, which) in shapes {
+                    let r = extract_with(n, entry, chunks, which, &|| rustfft::FftPlannerScalar::<Sym>::new().plan_fft(n, d));
+                    match r {
+                        Ok((grid, code, outs)) => {
+                            let body: Vec<String> = code.iter().map(|(o, a, b)| format!("({},{},{})", o, a, b)).collect();
+                            let outs_s: Vec<String> = outs.iter().map(|o| o.to_string()).collect();
+                            let name = format!("plan{}{}{}{}", n, tag, ["inplace", "oop", "immut"][entry], if chunks == 1 { String::new() } else { format!("k2c{}", which) });
+                            writeln!(out, "def {} : RawProg := {{ n := {}, grid := {}, inverse := {},\n  code := [{}],\n  outs := [{}] }}\n", name, n, grid, if tag == "I" { "true" } else { "false" }, body.join(","), outs_s.join(",")).unwrap();
+                            names.push(name);
+                        }
+                        Err(e) => {
+                            eprintln!("T8 failed closed: {}", e);
+                            std::process::exit(3);
+                        }
                     }
                 }
             }
